@@ -692,14 +692,14 @@ Definition tcp_process_quash (s : socket) (r : tcp_repr) : control :=
      && (seq_lt (tcp_window_start s) (r_seq_number r) || seq_lt (tcp_window_end s) segment_end)
   then CNone else control.
 
+(* the MSS option of a SYN (zero = absent); the congestion controller is told the segment size
+   in every case, also when remote_mss keeps its default *)
 Definition tcp_apply_mss (s : socket) (r : tcp_repr) : socket :=
-  match r_max_seg_size r with
-  | Some m =>
-      if m =? 0 then s else
-      let s := upd_remote_mss s (Z.max m tcp_MIN_REMOTE_MSS) in
-      upd_congestion_controller s (cc_set_mss (s_congestion_controller s) (s_remote_mss s))
-  | None => s
-  end.
+  let s := match r_max_seg_size r with
+           | Some m => if m =? 0 then s else upd_remote_mss s (Z.max m tcp_MIN_REMOTE_MSS)
+           | None => s
+           end in
+  upd_congestion_controller s (cc_set_mss (s_congestion_controller s) (s_remote_mss s)).
 
 Definition tcp_fin_received (s : socket) : socket :=
   let s := upd_remote_seq_no s (seq_add (s_remote_seq_no s) 1) in
